@@ -35,6 +35,11 @@ def run(ctx):
     ctx.rule("R03.w", "registration model, public calls: Parameters.watch and Parameters.watch_values interpreted with a distinct abstract value for every argument (names as list / single name x "
                       "queued x onlychanged x precedence): the Watcher handed to _register_watcher carries fn, the calling mode (args / kwargs), the names as a tuple, what, onlychanged, queued "
                       "and precedence exactly as given, and is the object returned", floor=1)
+    ctx.rule("R03.y", "dispatch model, _execute_watcher: calling mode (args / kwargs) x synchronous / coroutine callback x Skip, for events whose parameters were assigned again since: an "
+                      "args-mode callback receives the events, a kwargs-mode callback {name: the value that event installed}; coroutines are scheduled once; only Skip is swallowed", floor=1)
+    ctx.rule("R03.z", "comparator model, is_equal: Comparator.is_equal interpreted on 15 pairs described by concrete type x registered kind (1 and 1.0, 2 and Fraction(2), True and 1, a "
+                      "datetime and a Timestamp, two time-like objects, None, strings, containers, unregistered objects): two values of a common registered kind are compared by that kind's "
+                      "equality whatever their concrete types; containers element-wise; anything else unequal", floor=1)
     ctx.rule("R03.a", "every watcher dispatch in Parameter.__set__ is preceded on every path by the value store (or the constant-identity case); "
                       "the event carries old = the value read from the same storage just before the store and new = the stored binding; "
                       "Parameter.__setattr__ stores the slot before _trigger_event", floor=3)
@@ -325,6 +330,10 @@ def run(ctx):
     from checks import register_model
     register_model.report(ctx, "R03.p")
     register_model.report_api(ctx, "R03.w")
+    from checks import dispatch_model
+    dispatch_model.execute_watcher_model(ctx, "R03.y")
+    from checks.shared import is_equal_model
+    is_equal_model(ctx, "R03.z")
 
     # the model-level rule comes last: if the interpreter cannot follow an edited flush,
     # the structural findings above are still reported
